@@ -158,12 +158,18 @@ def check_read_conf(ctx, rng):
 
         def render(keys, loc_kind, style, variant):
             lines = ['; client configuration', '', '# comment line']
+            if variant % 6 == 4:
+                # a long file (a commented template as distributions ship it): settings stand beyond the first 4 / 8 / 64 KiB
+                lines += ['# ' + 'x' * 70] * [60, 120, 950][(variant // 6) % 3]
+                ctx.event('configuration-file-longer-than-4KiB')
             for k in keys:
                 v = value_for(k, loc_kind, variant)
                 sep = {'eq': '=', 'colon': ': ', 'eqsp': ' = '}[style]
                 kk = k if variant % 3 else k.upper() if variant % 2 else k
                 lines.append(f'{kk}{sep}{v}')
                 lines.append('')
+                if variant % 12 == 10:
+                    lines += ['; ' + '-' * 60] * 80        # (and between the settings)
             lines.append('unrelated=1')
             return '\n'.join(lines) + '\n'
 
@@ -219,6 +225,8 @@ def check_read_conf(ctx, rng):
                     files.append((c, None))
             for k in ('TRANSPORT', 'PIB', 'TPM'):
                 os.environ.pop(f'NDN_CLIENT_{k}', None)
+                for alike in (f'ndn_client_{k.lower()}', f'Ndn_Client_{k.capitalize()}', f'NDN_CLIENT_{k}_', f'_NDN_CLIENT_{k}', f'NDN_CLIENT_{k.lower()}'):
+                    os.environ.pop(alike, None)
             env = {}
             env_loc_kind = ['abs', 'rel-cwd', 'missing-abs', 'none', 'rel-file'][ci % 5]
             for k in envs:
@@ -227,6 +235,14 @@ def check_read_conf(ctx, rng):
                     env[k] = ''         # an override that is present but empty is still the override (e.g. export VAR=$UNSET)
                     ctx.event('environment-override-present-but-empty')
                 os.environ[f'NDN_CLIENT_{k.upper()}'] = env[k]
+            if ci % 5 == 2 and os.name == 'posix':
+                # other variables of the environment whose names differ from the three only in case / by an affix are other
+                # variables (names are case-sensitive): set after the real ones, and also where the real one is absent
+                for k in ('TRANSPORT', 'PIB', 'TPM'):
+                    decoy = {'TRANSPORT': 'tcp://look-alike:7', 'PIB': 'pib-sqlite3:/look/alike', 'TPM': 'tpm-file:/look/alike'}[k]
+                    for alike in (f'ndn_client_{k.lower()}', f'Ndn_Client_{k.capitalize()}', f'NDN_CLIENT_{k}_', f'_NDN_CLIENT_{k}', f'NDN_CLIENT_{k.lower()}'):
+                        os.environ[alike] = decoy
+                ctx.event('look-alike-environment-variables')
             # which of the forwarder's two well-known local sockets exist (Linux: the current /run/nfd/nfd.sock, the one of old
             # forwarders /run/nfd.sock): the platform default is the current one unless ONLY the old one is there.  The harness
             # answers os.path.exists for exactly these two paths (they lie outside the sandbox) and nothing else.
@@ -401,7 +417,7 @@ def run(ctx):
     check_read_conf(ctx, rng)
     check_faces(ctx, rng)
     check_keychain(ctx, rng)
-    for k in ('environment-override-present-but-empty', 'candidate-file-is-a-symlink', 'home-0', 'home-1', 'home-2', 'configuration', 'audit-open-checked', 'face-uri-supported', 'face-uri-unsupported', 'keychain', 'store-scheme-refused'):
+    for k in ('look-alike-environment-variables', 'configuration-file-longer-than-4KiB', 'environment-override-present-but-empty', 'candidate-file-is-a-symlink', 'home-0', 'home-1', 'home-2', 'configuration', 'audit-open-checked', 'face-uri-supported', 'face-uri-unsupported', 'keychain', 'store-scheme-refused'):
         ctx.need_event(k)
     if sys.platform.startswith('linux'):
         ctx.need_event('forwarder-sockets-present-01')
